@@ -22,6 +22,8 @@ type Tunnel struct {
 	// The underlying outgoing transport being either websocket or legacy http
 	// in case of websocket transportOut will equal transportOut
 	transportOut transport.Transport
+	// bytes received on transportIn that belong to the next packet(s)
+	pending []byte
 	// The remote desktop server (rdp, vnc etc) the clients intends to connect to
 	TargetServer string
 	// The obtained client ip address
@@ -56,7 +58,7 @@ func (t *Tunnel) Write(pkt []byte) {
 // packet, with the header removed, and the packet size. It updates the
 // statistics for bytes received
 func (t *Tunnel) Read() (pt int, size int, pkt []byte, err error) {
-	pt, size, pkt, err = readMessage(t.transportIn)
+	pt, size, pkt, err = readMessage(t.transportIn, &t.pending)
 	t.BytesReceived += int64(size)
 	t.LastSeen = time.Now()
 
